@@ -34,18 +34,18 @@ func xmlErrKind(e error) int64 {
 
 // xmlStep is what one call of Next exposes.
 type xmlStep struct {
-	tt            xml.TokenType
-	data          []byte // copy
-	dataNil       bool
-	lo, hi        int // coordinates of data in the buffer (-1 when nil/empty)
-	capExtra      int
-	text, attr    []byte // copies
-	textNil       bool
-	attrNil       bool
-	tlo, thi      int
-	alo, ahi      int
-	offset        int
-	err           int64
+	tt         xml.TokenType
+	data       []byte // copy
+	dataNil    bool
+	lo, hi     int // coordinates of data in the buffer (-1 when nil/empty)
+	capExtra   int
+	text, attr []byte // copies
+	textNil    bool
+	attrNil    bool
+	tlo, thi   int
+	alo, ahi   int
+	offset     int
+	err        int64
 }
 
 // xmlRun drives the real lexer over d: calls Next until the first ErrorToken, then extra more times
@@ -697,7 +697,7 @@ func c11RepoTestStrings(path string) []string {
 
 func xmlGen(r *Rng, tier string, emit func(Case)) {
 	// (0) the spellings of xml/lex_test.go and every truncation of them
-	for _, s := range c11RepoTestStrings(repoRoot+"/xml/lex_test.go") {
+	for _, s := range c11RepoTestStrings(repoRoot + "/xml/lex_test.go") {
 		emit(xmlCase([]byte(s), 2, "suite"))
 		for j := 1; j < len(s) && j < 120; j++ {
 			emit(xmlCase([]byte(s[:j]), 1, "suite-trunc"))
